@@ -213,10 +213,13 @@ Definition finalize_deposit (c : cfg) (s : l2state) (m : fdep) : option (l2state
         RSuccess).
 
 (* ---- user withdrawal ---- *)
+(* MsgInitiateTokenWithdrawal.Validate: IsValid, IsPositive and Amount.IsUint64 (the amount
+   must fit the uint64 the L1 withdrawal hash commits to - repair af9c5ae) *)
+Definition two64 : Z := 18446744073709551616.
 Definition withdraw (c : cfg) (s : l2state) (sender to d : bytes) (amt : Z) : option (l2state * resp) :=
   a ← resolve c sender;
   if bool_decide (to = []) then None else
-  if negb (valid_denom d && (0 <? amt)%Z) then None else
+  if negb (valid_denom d && (0 <? amt)%Z && (amt <? two64)%Z) then None else
   b1 ← bank_send (bk s) a (modacc c) d amt;
   b2 ← bank_burn b1 (modacc c) d amt;
   base ← pairs s !! d;
